@@ -134,6 +134,7 @@ SPEC = [
     ('forth32', '1 30 lshift dup 1+ mod', [], [2 ** 30], 'forth-mod-overflow'),
     ('forth64', '1 40 lshift dup 2 + swap do i loop', [], [2 ** 40, 2 ** 40 + 1], 'forth-loop-index-cast-int32'),
     ('forth64', '4294967296 -4294967297', [], [4294967296, -4294967297], 'forth-literal-cast-int32'),
+    ('forth64', '1 40 lshift negate abs -5 abs', [], [2 ** 40, 5], 'forth-abs-cast-int32'),
 ]
 
 
@@ -274,6 +275,18 @@ def run_model(lines, fixed=False, fuel=400000, workers=8):
     return out
 
 
+def run_driver_parallel(lines, san=False, per_case_timeout=10.0, workers=8):
+    from concurrent.futures import ThreadPoolExecutor
+    n = max(1, min(workers, len(lines) // 200 + 1))
+    chunks = [lines[i::n] for i in range(n)]
+    res, errs = {}, {}
+    with ThreadPoolExecutor(max_workers=n) as ex:
+        for r, e in ex.map(lambda ch: C.run_driver(ch, drv='forthdrv', san=san, per_case_timeout=per_case_timeout), chunks):
+            res.update(r)
+            errs.update(e)
+    return res, errs
+
+
 FLOAT = re.compile(r'f:(-?0x[0-9a-f.]+p[+-]?\d+)')
 DECOMP = re.compile(r' \(decomp[^)]*\)')
 
@@ -381,7 +394,7 @@ def run(cases, tier, rng):
     impl_san = {}
     if san:
         safe = [ln for ln in sendable if not model[C.LINE_ID.match(ln).group(1)].startswith('fault')]
-        impl_san, errs_san = C.run_driver(safe, drv='forthdrv', san=True, per_case_timeout=30.0)
+        impl_san, errs_san = run_driver_parallel(safe, san=True, per_case_timeout=30.0)
         C.log('sanitizer build evaluated (%d sessions)' % len(safe))
 
     findings, verd, dist, samples = [], {}, {}, []
@@ -456,7 +469,8 @@ def run(cases, tier, rng):
                 if san and sid in impl_san and canon_impl(impl_san[sid]) != ci:
                     add('crash', 'sanitizer build differs / reports: ' + impl_san[sid][:200],
                         [ln, '# std: ' + ci[:600], '# san: ' + impl_san[sid][:600], '# stderr: ' + errs_san.get(sid, '').replace('\n', '\n# ')],
-                        sig='forth-ubsan' if 'runtime error' in errs_san.get(sid, '') else None, ob='prop:no-crash')
+                        sig=None if 'AddressSanitizer' in errs_san.get(sid, '') or not errs_san.get(sid, '') else 'forth-ubsan',
+                        ob='prop:no-crash')
                     count('san-diff')
                 nontriv = ('(stack)' not in mres or re.search(r'\(o\d \w+ \([^)]', mres) or '(err 0)' not in mres) and mres.startswith('ok')
                 if nontriv:
@@ -481,6 +495,10 @@ def run(cases, tier, rng):
                 if k in obs and obs[k] != obs['A']:
                     sidk = '%s.%s' % (c.id, k)
                     fx = fixed.get(sidk, '')
+                    unfinished = '(err 0) (ready 1) (done 0)'
+                    if unfinished in obs[k] and unfinished in fx:
+                        count('step-cap-reached')       # the step budget ran out, also with the patched stepping
+                        continue
                     explained = observable(fx) == obs['A']
                     f = features(c.meta.get('src', ''))
                     sig = None
